@@ -92,8 +92,19 @@ def prepare_roots():
     return roots, texts, sorted(good), sorted(bad)
 
 
+# Variables a build driver, a terminal or a CI system really sets for a proc-macro host; the generator must not care.
+WELL_KNOWN_VARS = {
+    "CARGO_PKG_NAME": ["app", "my-crate"], "CARGO_CRATE_NAME": ["app", "my_crate"], "CARGO_PKG_VERSION": ["0.1.0", "12.3.4-beta"], "CARGO_PRIMARY_PACKAGE": ["1"],
+    "PROFILE": ["debug", "release"], "DEBUG": ["true", "false"], "OPT_LEVEL": ["0", "3"], "OUT_DIR": ["/tmp/out", "/nonexistent/out"], "TARGET": ["x86_64-unknown-linux-gnu", "wasm32-unknown-unknown"],
+    "HOST": ["x86_64-unknown-linux-gnu"], "RUSTC": ["rustc"], "CARGO": ["/usr/bin/cargo"], "RUSTFLAGS": ["", "-C debuginfo=2"], "CARGO_ENCODED_RUSTFLAGS": ["--cfg\x1ffoo"],
+    "RUST_BACKTRACE": ["0", "1", "full"], "RUST_LOG": ["trace", "pest_typed_generator=debug"], "RUST_MIN_STACK": ["8388608"], "NUM_JOBS": ["1", "64"], "CARGO_BUILD_JOBS": ["1"],
+    "TERM": ["dumb", "xterm-256color"], "NO_COLOR": ["1"], "CLICOLOR_FORCE": ["1"], "COLORTERM": ["truecolor"], "COLUMNS": ["20", "400"],
+    "LANG": ["C", "en_US.UTF-8", "tr_TR.UTF-8", "zh_CN.GB2312"], "LC_ALL": ["C", "de_DE.UTF-8"], "TZ": ["UTC", "Pacific/Kiritimati"], "HOME": ["/root", "/nonexistent"], "USER": ["root", "builder"],
+    "TMPDIR": ["/tmp", "/nonexistent"], "PWD": ["/", "/somewhere/else"], "CI": ["true"], "SOURCE_DATE_EPOCH": ["0", "1700000000"], "RA_RUSTC_WRAPPER": ["1"], "PEST_DEBUG": ["1"], "PEST_TYPED_DEBUG": ["1"],
+}
+
 NEUTRAL_ENV = {"shim_seed": 0, "clock_base": 1700000000, "clock_step": 1000, "junk_env": 0, "junk_size": 0, "cwd": "root0", "root": 0,
-               "read_short": 0, "read_eintr": 0, "stderr": "pipe"}
+               "read_short": 0, "read_eintr": 0, "stderr": "pipe", "well_known": {}}
 
 
 def text_of(texts, name):
@@ -130,6 +141,12 @@ def gen_run(seed, goods, bads, texts):
     if rng.chance(1, 2):
         env["junk_env"] = rng.below(40)
         env["junk_size"] = 1 + rng.below(300)
+    env["well_known"] = {}
+    if rng.chance(2, 3):
+        names = sorted(WELL_KNOWN_VARS)
+        for _ in range(1 + rng.below(12)):
+            nm = rng.pick(names)
+            env["well_known"][nm] = rng.pick(WELL_KNOWN_VARS[nm])
     env["root"] = rng.below(3) if rng.chance(1, 2) else 0
     env["cwd"] = rng.pick(["root0", "root1", "slash", "build"]) if rng.chance(1, 2) else "root0"
     if rng.chance(1, 2):
@@ -167,6 +184,8 @@ def process_env(env, roots, shim, log):
          "ENVSHIM_LOG": log, "CARGO_MANIFEST_DIR": roots[env["root"]]}
     for i in range(env["junk_env"]):
         e["JUNK_%03d" % i] = "x" * env["junk_size"]
+    for k, v in sorted(env.get("well_known", {}).items()):
+        e[k] = v
     cwd = {"root0": roots[0], "root1": roots[1], "slash": "/", "build": C.build_root()}[env["cwd"]]
     return e, cwd
 
@@ -268,6 +287,13 @@ def minimise(binary, shim, roots, refs, run, cls, key, pool):
         else:
             i += 1
     for k, v in NEUTRAL_ENV.items():
+        if k == "well_known":
+            for name in sorted(cur["env"].get("well_known", {})):
+                cand = json.loads(json.dumps(cur))
+                del cand["env"]["well_known"][name]
+                if still(cand):
+                    cur = cand
+            continue
         if cur["env"][k] != v:
             if k == "root" and any(s["include_grammar"] for s in cur["scenario"]["steps"]):
                 continue
@@ -368,7 +394,7 @@ def run(tier, seed):
     failing = {}
     counters_total = {}
     env_kinds = {"hash_seed_varied": 0, "clock_varied": 0, "junk_environment": 0, "manifest_root_relocated": 0, "cwd_changed": 0,
-                 "read_short_configured": 0, "read_eintr_configured": 0, "stderr_is_full_disk": 0, "stderr_is_devnull": 0, "heap_ballast": 0, "non_main_thread_steps": 0, "fresh_thread_steps": 0,
+                 "well_known_variables_set": 0, "read_short_configured": 0, "read_eintr_configured": 0, "stderr_is_full_disk": 0, "stderr_is_devnull": 0, "heap_ballast": 0, "non_main_thread_steps": 0, "fresh_thread_steps": 0,
                  "panicking_expansions": 0, "steps_after_a_panicking_expansion": 0, "repeated_expansions_in_one_process": 0,
                  "generated_grammar_expansions": 0, "generated_grammar_expansions_accepted": 0}
     distinct = set()
@@ -399,6 +425,7 @@ def run(tier, seed):
             env_kinds["hash_seed_varied"] += 1
             env_kinds["clock_varied"] += e["clock_base"] != NEUTRAL_ENV["clock_base"] or e["clock_step"] != NEUTRAL_ENV["clock_step"]
             env_kinds["junk_environment"] += e["junk_env"] > 0
+            env_kinds["well_known_variables_set"] += len(e["well_known"])
             env_kinds["manifest_root_relocated"] += e["root"] != 0
             env_kinds["cwd_changed"] += e["cwd"] != "root0"
             env_kinds["read_short_configured"] += e["read_short"] > 0
@@ -406,7 +433,7 @@ def run(tier, seed):
             env_kinds["stderr_is_full_disk"] += e["stderr"] == "devfull"
             env_kinds["stderr_is_devnull"] += e["stderr"] == "devnull"
             env_kinds["heap_ballast"] += r["scenario"]["heap_pre"][0] > 0
-            env_class = (e["clock_base"] != NEUTRAL_ENV["clock_base"], e["junk_env"] > 0, e["root"], e["cwd"], e["read_short"], e["read_eintr"], e["stderr"],
+            env_class = (e["clock_base"] != NEUTRAL_ENV["clock_base"], e["junk_env"] > 0, tuple(sorted(e["well_known"])), e["root"], e["cwd"], e["read_short"], e["read_eintr"], e["stderr"],
                          r["scenario"]["heap_pre"][0] > 0)
             prefix = ""
             panicked = False
